@@ -332,6 +332,71 @@ mod run {
         STREAM.lock().unwrap().extend(lines);
     }
 
+    /// the mask types: N booleans in lane order, every one of the 2^N values
+    macro_rules! serde_mask_checks {
+        ($rep:ident, $(($T:ident, $N:expr)),*) => {$({
+            let tn = stringify!($T);
+            let n: usize = $N;
+            $rep.sweep(&format!("{tn}/serde token stream/all 2^{n} masks"), 1u64 << n, |idx, acc| {
+                let b: [bool; $N] = core::array::from_fn(|i| (idx >> i) & 1 == 1);
+                let v = <$T>::from_array(b);
+                acc.eval(idx != 0, idx);
+                let toks = match to_tokens(&v) {
+                    Ok(t) => t,
+                    Err(e) => { acc.fail(&format!("{tn}::serialize"), format!("lanes={:?} error {}", b, e)); return; }
+                };
+                let mut want = vec![Tok::TupleStruct(tn, n)];
+                want.extend(b.iter().map(|x| Tok::Bool(*x)));
+                want.push(Tok::End);
+                if !(matches!(&toks[0], Tok::TupleStruct(_, k) if *k == n) && toks[1..] == want[1..]) {
+                    acc.fail(&format!("{tn}::serialize"), format!("lanes={:?} tokens={:?} want={:?}", b, toks, want));
+                    return;
+                }
+                match from_tokens::<$T>(&toks) {
+                    Ok(back) => {
+                        let g: [bool; $N] = back.into();
+                        if g != b { acc.fail(&format!("{tn}::deserialize"), format!("lanes={:?} came back as {:?}", b, g)); }
+                    }
+                    Err(e) => acc.fail(&format!("{tn}::deserialize"), format!("lanes={:?} error {}", b, e)),
+                }
+                // serde_json text: exact for booleans
+                match serde_json::to_string(&v) {
+                    Ok(s) => {
+                        let wj = format!("[{}]", b.iter().map(|x| x.to_string()).collect::<Vec<_>>().join(","));
+                        if s != wj { acc.fail(&format!("{tn}::serde_json"), format!("lanes={:?} json={s} want={wj}", b)); }
+                        match serde_json::from_str::<$T>(&s) {
+                            Ok(back) => { let g: [bool; $N] = back.into(); if g != b { acc.fail(&format!("{tn}::serde_json round trip"), format!("lanes={:?} json={s} came back as {:?}", b, g)); } }
+                            Err(e) => acc.fail(&format!("{tn}::serde_json round trip"), format!("lanes={:?} json={s} error {e}", b)),
+                        }
+                    }
+                    Err(e) => acc.fail(&format!("{tn}::serde_json"), format!("{e}")),
+                }
+            });
+            // text recorded (in index order) for the cross-build comparison
+            for idx in 0..(1u64 << n) {
+                let b: [bool; $N] = core::array::from_fn(|i| (idx >> i) & 1 == 1);
+                if tn.ends_with('A') { break; }
+                if let Ok(s) = serde_json::to_string(&<$T>::from_array(b)) { STREAM.lock().unwrap().push(format!("{tn}#{idx}\t{s}")); }
+            }
+            $rep.sweep(&format!("{tn}/serde length rejection/lengths 0..N+2"), (n + 3) as u64, |idx, acc| {
+                let len = idx as usize;
+                let mut toks = vec![Tok::TupleStruct(tn, len)];
+                toks.extend((0..len).map(|i| Tok::Bool(i % 2 == 0)));
+                toks.push(Tok::End);
+                let r = from_tokens::<$T>(&toks);
+                acc.eval(true, r.is_ok() as u64 | (idx << 1));
+                if r.is_ok() != (len == n) {
+                    acc.fail(&format!("{tn}::deserialize(length)"), format!("a sequence of {len} elements was {} (element count is {n})", if r.is_ok() { "accepted" } else { "rejected" }));
+                }
+                let text = format!("[{}]", (0..len).map(|i| (i % 2 == 0).to_string()).collect::<Vec<_>>().join(","));
+                let rj = serde_json::from_str::<$T>(&text);
+                if rj.is_ok() != (len == n) {
+                    acc.fail(&format!("{tn}::deserialize(json length)"), format!("json `{text}` was {}", if rj.is_ok() { "accepted" } else { "rejected" }));
+                }
+            });
+        })*};
+    }
+
     // ---------------------------------------------------------------- bytemuck
     pub struct Probe<T>(pub std::marker::PhantomData<T>);
     pub trait IsPodYes {
@@ -486,6 +551,12 @@ mod run {
         all_serde!(Vec2, Vec3, Vec3A, Vec4, DVec2, DVec3, DVec4, Quat, DQuat, Mat2, Mat3, Mat3A, Mat4, DMat2, DMat3, DMat4, Affine2, Affine3A, DAffine2, DAffine3);
         all_serde!(I8Vec2, I8Vec3, I8Vec4, U8Vec2, U8Vec3, U8Vec4, I16Vec2, I16Vec3, I16Vec4, U16Vec2, U16Vec3, U16Vec4, IVec2, IVec3, IVec4, UVec2, UVec3, UVec4);
         all_serde!(I64Vec2, I64Vec3, I64Vec4, U64Vec2, U64Vec3, U64Vec4, USizeVec2, USizeVec3, USizeVec4);
+        serde_mask_checks!(rep, (BVec2, 2), (BVec3, 3), (BVec4, 4));
+        // the scalar-math build defines its own BVec3A / BVec4A without serde impls (a compile-time
+        // difference, outside what an execution can show); the SIMD types are checked where they exist,
+        // their JSON text against the literal expected text rather than through the cross-build stream
+        #[cfg(not(feature = "scalar"))]
+        serde_mask_checks!(rep, (BVec3A, 3), (BVec4A, 4));
         bytemuck_checks!(rep, Vec2, Vec3, Vec3A, Vec4, DVec2, DVec3, DVec4, Quat, DQuat, Mat2, Mat3, Mat3A, Mat4, DMat2, DMat3, DMat4, Affine2, Affine3A, DAffine2, DAffine3,
             I8Vec2, I8Vec3, I8Vec4, U8Vec2, U8Vec3, U8Vec4, I16Vec2, I16Vec3, I16Vec4, U16Vec2, U16Vec3, U16Vec4, IVec2, IVec3, IVec4, UVec2, UVec3, UVec4,
             I64Vec2, I64Vec3, I64Vec4, U64Vec2, U64Vec3, U64Vec4);
